@@ -12,6 +12,7 @@ import KinModel.Conc
 import KinModel.ConcCase
 import KinModel.ConcSlice
 import KinModel.Gen.SharedWrites
+import KinModel.Gen.SharedGlobals
 import KinModel.Lemmas.C15
 namespace KinModel.Conc
 
@@ -241,6 +242,38 @@ theorem table_schedule_independent (σ : State) (tr : Trace) (i : Nat)
 example : (tableCfg Gen.sharedWrites).cache ≠ [] ∧ (tableCfg Gen.sharedWrites).lazy ≠ [] ∧
     (tableActs Gen.sharedWrites).length ≥ 3 := by decide
 
+/-! ## B′. package-level variables READ by the concurrent code (table `Gen.sharedGlobals`, regenerated)
+
+`Gen.sharedWrites` lists what the concurrent entry points write; a plain read is safe only if nobody else writes.
+The table lists every package-level variable that reachable code accesses and that ANY function of the library
+writes after initialisation (`init` excluded), with all accesses and the mutex held at each. -/
+
+/-- Every such variable is a synchronisation object itself, or all its accesses (reads included, in every function
+    of the library) are under one and the same mutex, or it is never written (only its address is handed out), or the
+    reachable code only reads it and every writer is a registration function (`registrationAPIs`: the calls the
+    property does not quantify over). A new unsynchronised writer, a read that forgets the lock, a registry changed
+    from a validation path: each breaks this. -/
+theorem globals_consistent :
+    ∀ r ∈ Gen.sharedGlobals, globalClass (lazyGlobals Gen.sharedWrites) r ≠ .bad := by decide
+
+/-- What each mutex of the library protects (read off the code: the variables accessed while it is held) is
+    accessed under that mutex everywhere: the invariant of `typeInfosMutex` is "typeInfos is only touched under me",
+    of `bodyEncodersM` "bodyEncoders is only touched under me". -/
+theorem mutex_invariants :
+    ∀ o ∈ Gen.syncObjects, ∀ v ∈ o.protects, ∀ r ∈ Gen.sharedGlobals, r.name = v →
+      globalClass (lazyGlobals Gen.sharedWrites) r = .mutexGuarded := by decide
+
+/-- the classes that occur (non-vacuity: all four mechanisms are in use) -/
+example : (Gen.sharedGlobals.map (globalClass (lazyGlobals Gen.sharedWrites))).eraseDups.length = 4 := by decide
+
+/-- a registry written by a function that is not a registration API is rejected (witness for `globals_consistent`) -/
+example : globalClass [] ⟨"openapi3filter", "bodyDecoders", "map", false,
+    [⟨"openapi3filter.decodeBody", .read, "", true⟩, ⟨"openapi3filter.ValidateRequest", .write, "", true⟩]⟩ = .bad := by decide
+
+/-- … and so is a mutex-guarded map with one access that forgot the lock -/
+example : globalClass [] ⟨"openapi3gen", "typeInfos", "map", false,
+    [⟨"openapi3gen.getTypeInfo", .read, "", true⟩, ⟨"openapi3gen.getTypeInfo", .write, "typeInfosMutex", true⟩]⟩ = .bad := by decide
+
 /-! ## C. the executable case model used by the correspondence run
 
 Full strength (the exclusions `SharedObjectDefault` / `TypeInfoIdentity` of findings F-C15-1 / F-C15-2 are gone:
@@ -264,8 +297,8 @@ theorem outcome_clean (c : CaseM) : outcome c = specOutcome := by
     rw [List.any_eq_false]
     intro d hdm
     have hlt : (d : Nat) < 10 := by
-      simp only [docCells, docCell, routerCell, uniqCell, dfltCell, List.mem_cons, List.not_mem_nil, or_false] at hdm
-      rcases hdm with rfl | rfl | rfl | rfl <;> decide
+      simp only [docCells, docCell, routerCell, uniqCell, dfltCell, regCell, List.mem_cons, List.not_mem_nil, or_false] at hdm
+      rcases hdm with rfl | rfl | rfl | rfl | rfl <;> decide
     have hn : d ∉ (caseCfg c).cache := fun hm => by
       have h1 : 10 ≤ (d : Nat) := (cache_cell_ge c d hm).1
       exact absurd h1 (Nat.not_le.mpr hlt)
